@@ -936,6 +936,12 @@ impl ArchiveMeta {
         let mut buf = [0u8; mem::size_of::<usize>()];
         source.read_exact(&mut buf)?;
         res.bucket_count = usize::from_ne_bytes(buf);
+        if res.bucket_count == 0 {
+            // We divide by this.
+            return Err(io::Error::new(
+                io::ErrorKind::UnexpectedEof, "empty archive index"
+            ))
+        }
         Ok(res)
     }
 
